@@ -50,6 +50,7 @@ func runC19(p *core.Program, r *core.Report) {
 	c19Tables(p, r)
 	c19Units(p, r)
 	c19Fields(p, r)
+	c19Pad(p, r)
 	c19FormatParse(p, r)
 }
 
@@ -354,6 +355,80 @@ func c19Fields(p *core.Program, r *core.Report) {
 	}
 }
 
+// c19Pad: the zero-padding helpers mk2/mk3 produce exactly K characters for every value of the K-digit
+// range. Partition evaluation over n: each path returns some zeros followed by the decimal text of n;
+// for every value class, zeros + number of digits must be K.
+func c19Pad(p *core.Program, r *core.Report) {
+	for name, k := range map[string]int{"mk2": 2, "mk3": 3} {
+		fi := p.Func("util/dateutil", name)
+		c := "util/dateutil." + name
+		if fi == nil || fi.Decl.Body == nil || fi.Decl.Type.Params.NumFields() != 1 {
+			r.Undec("C19.fields", c, "-", "padding helper not found")
+			continue
+		}
+		info := fi.Pkg.TypesInfo
+		nobj := info.Defs[fi.Decl.Type.Params.List[0].Names[0]]
+		max := int64(99)
+		if k == 3 {
+			max = 999
+		}
+		pths, err := evalClasses(p, fi, ivl{0, max}, symParam(nobj), nil, func(string) bool { return false })
+		pos := p.Pos(fi.Decl.Pos())
+		if err != "" {
+			r.Undec("C19.fields", c, pos, "cannot enumerate the value classes: "+err)
+			continue
+		}
+		digitClasses := []ivl{{0, 9}, {10, 99}, {100, 999}}
+		bad := ""
+		for i := range pths {
+			pth := &pths[i]
+			// zeros in the returned concatenation, and the number text
+			zeros, num, other := 0, 0, false
+			var walk func(s string)
+			_ = walk
+			rs := pth.RetS
+			// RetS is a canonical text like ("00"+strconv.Itoa(S)) ; count the literal zeros and the number part
+			for _, part := range strings.Split(strings.NewReplacer("(", "", ")", "").Replace(rs), "+") {
+				part = strings.TrimSpace(part)
+				switch {
+				case strings.HasPrefix(part, `"`) && strings.HasSuffix(part, `"`):
+					lit := strings.Trim(part, `"`)
+					if strings.Trim(lit, "0") != "" {
+						other = true
+					}
+					zeros += len(lit)
+				case part == "strconv.ItoaS" || part == "strconv.FormatIntint64S,10" || part == "strconv.Itoaint(S":
+					num++
+				case part == "":
+				default:
+					other = true
+				}
+			}
+			if other || num != 1 {
+				bad = "returns `" + rs + "`, which is not zeros followed by the decimal text of the value"
+				break
+			}
+			for _, dc := range digitClasses {
+				piece := ivIntersect(pth.Set, ivSet{dc})
+				if piece.empty() {
+					continue
+				}
+				digits := 1
+				if dc.lo >= 10 {
+					digits = 2
+				}
+				if dc.lo >= 100 {
+					digits = 3
+				}
+				if zeros+digits != k && bad == "" {
+					bad = fmt.Sprintf("values %s are printed with %d zero(s) + %d digit(s) = %d characters, want %d: the fixed-width timestamp shifts", piece, zeros, digits, zeros+digits, k)
+				}
+			}
+		}
+		r.Check(bad == "", "C19.fields", c+" padding", pos, fmt.Sprintf("every value of 0..%d is printed with exactly %d characters", max, k), bad)
+	}
+}
+
 func c19FormatParse(p *core.Program, r *core.Report) {
 	ff := p.Method("util/dateutil", "DateFormat", "format")
 	pf := p.Method("util/dateutil", "DateFormat", "Parse")
@@ -558,6 +633,47 @@ func c19FormatParse(p *core.Program, r *core.Report) {
 		}
 		_, def = walkLetter(int64('-'))
 		return out, def
+	}
+	// format must be a function of the pattern and the instant only: it writes no field of the
+	// formatter and does not hand back stored text (a cached result makes two instants print alike,
+	// so Parse(Format(t)) is no longer t)
+	{
+		finfo := ff.Pkg.TypesInfo
+		var frecv types.Object
+		if ff.Decl.Recv != nil && len(ff.Decl.Recv.List) == 1 && len(ff.Decl.Recv.List[0].Names) == 1 {
+			frecv = finfo.Defs[ff.Decl.Recv.List[0].Names[0]]
+		}
+		isRecvField := func(e ast.Expr) bool {
+			sel, ok := ast.Unparen(e).(*ast.SelectorExpr)
+			if !ok {
+				return false
+			}
+			id, ok := ast.Unparen(sel.X).(*ast.Ident)
+			return ok && frecv != nil && finfo.ObjectOf(id) == frecv
+		}
+		var impure []string
+		ast.Inspect(ff.Decl.Body, func(n ast.Node) bool {
+			switch v := n.(type) {
+			case *ast.AssignStmt:
+				for _, l := range v.Lhs {
+					if isRecvField(l) {
+						impure = append(impure, "assigns "+stripSpaces(types.ExprString(l)))
+					}
+					if ix, ok := ast.Unparen(l).(*ast.IndexExpr); ok && isRecvField(ix.X) {
+						impure = append(impure, "writes "+stripSpaces(types.ExprString(ix.X)))
+					}
+				}
+			case *ast.ReturnStmt:
+				for _, res := range v.Results {
+					if isRecvField(res) {
+						impure = append(impure, "returns the stored "+stripSpaces(types.ExprString(res)))
+					}
+				}
+			}
+			return true
+		})
+		r.Check(len(impure) == 0, "C19.format-parse", "util/dateutil.DateFormat.format purity", p.Pos(ff.Decl.Pos()), "no state carried from one call to the next",
+			"format "+strings.Join(uniq(impure), ", ")+": the text depends on earlier calls, not only on the instant, so format and Parse are no longer inverse")
 	}
 	fw, fdef := widths(ff, "LPadInt")
 	pw, pdef := widths(pf, ".ToInt")
